@@ -362,6 +362,17 @@ def _cases(tier: str, seed: int, *, kinds=("norm", "floor")) -> list[dict]:
             w = make_world(conv, rng, two=False, K=140)
             w["depths"][0] = depth_coord(w["depths"][0]["name"], w["depths"][0]["dim"], 140, down, deepfirst, True, False)
             out.append({"src": "gen", "world": w, "events": [{"a": "OceanFloor", "via": "function"}, {"a": "OceanFloor", "via": "accessor"}]})
+    if "norm" in kinds:
+        # two coordinates on one dimension, opposite sign conventions, NEITHER with a positive attribute (each is judged by its
+        # own values)
+        for conv in ("cf1d", "ugrid"):
+            w = make_world(conv, rng, two=False, K=3, twin=True)
+            for dc in w["depths"]:
+                dc["positive"] = ""
+            ev = [{"a": "Touch", "via": "accessor"}]
+            for pd, d2s in (("yes", "none"), ("no", "yes"), ("yes", "no")):
+                ev.append({"a": "Normalize", "pd": pd, "d2s": d2s, "via": "accessor" if len(ev) % 2 else "function"})
+            out.append({"src": "gen", "world": w, "events": ev})
     # three depth coordinates, two of them on one dimension and listed before the third
     for conv in [c for c in W.ALL_CONVS if c not in DEPTH_NAMES]:
         for rep in range(1 if tier == "quick" else 3):
